@@ -51,6 +51,18 @@ def correspond(ctx, scale):
                   learnable_codebook=learnable, ema_update=not learnable, sync_update_v=v, commitment_weight=rng.choice([1.0, 0.25]))
         vq = VectorQuantize(**kw)
         vq.train()
+        if ci % 2 == 1:
+            # some history on this instance first (a training call with gradients and an eval call on other inputs): the gradient contract of a
+            # call must not depend on what the instance did before
+            xp = torch.randn(2, 3, d * heads, requires_grad=True)
+            o_, _, l_ = vq(xp)
+            (o_.sum() + l_.sum()).backward()
+            vq.zero_grad()
+            vq.eval()
+            with torch.no_grad():
+                vq(torch.randn(1, 2, d * heads))
+            vq.train()
+            dist['with_history'] = dist.get('with_history', 0) + 1
         b, nn_ = rng.choice([(1, 2), (2, 2), (1, 3)])
         x = torch.randn(b, nn_, d * heads)
         if ci % 7 == 0:
